@@ -4,12 +4,14 @@
 (* packages) and whether it is benign (the safe extractor accepts it).        *)
 EXTENDS MC_Extract, Json, IOUtils, SequencesExt
 Pkgs == UNION { [1..n -> Entries] : n \in 1..MaxEntries }
-\* flat: the same paths stored with "/" as the only directory name and the whole path as base name
-Case(p, flat) == [entries |-> p, flat |-> flat,
+\* flat: the same paths stored with "/" as the only directory name and the whole path as base name;
+\* abs:  stored as absolute base names that name <jail>/<path> (outside the target unless joined below it)
+Case(p, mode) == [entries |-> p, mode |-> mode, flat |-> mode # "plain",
             naive_escapes |-> ~Contained(Fs0, Run("naive", Fs0, p).fs),
             benign |-> Run("safe", Fs0, p).ok]
 VARIABLE done
 GInit == done = FALSE /\ fs = Fs0 /\ todo = <<>> /\ ok = TRUE
-GNext == ~done /\ done' = TRUE /\ UNCHANGED <<fs, todo, ok>> /\ ndJsonSerialize(IOEnv.OUT, SetToSeq({Case(p, FALSE) : p \in Pkgs} \cup {Case(p, TRUE) : p \in {q \in Pkgs : \E i \in 1..Len(q) : Len(q[i].comps) > 1}}))
+GNext == ~done /\ done' = TRUE /\ UNCHANGED <<fs, todo, ok>> /\ ndJsonSerialize(IOEnv.OUT, SetToSeq({Case(p, "plain") : p \in Pkgs} \cup {Case(p, "flat") : p \in {q \in Pkgs : \E i \in 1..Len(q) : Len(q[i].comps) > 1}}
+                                                    \cup {Case(p, "abs") : p \in {q \in Pkgs : Len(q) <= 2}}))
 GSpec == GInit /\ [][GNext]_<<done, fs, todo, ok>>
 =============================================================================
